@@ -15,6 +15,7 @@
      cut_free pl   pl contains no Limit node and no ORDER BY .. LIMIT 0 (the two places that end a run
                    early by design); source_fails pl: a scripted source below fails (for a join: on either side). *)
 From Octo Require Import ErrorFlow ErrorFlowProofs.
+From Octo Require JoinDelivery JoinDeliveryProofs.
 
 (* C06_node.  For every node kind: if the node(s) below are honest (resp. honest and quiet), so is the node
    — whatever the predicate / expressions / aggregate state machine / join matching function / schedule are.
@@ -212,3 +213,36 @@ Proof.
   exact pinned_json_write_swallows.
 Qed.
 Print Assumptions C06_pinned_json_write_refuted.
+
+(* ---- joins at channel level (the class of seeded change C06-4) ----
+   Model: the two-producer / one-receive-loop transition system of StreamJoin.Run / OuterJoin.Run built for C29
+   (Model/Concurrency.v part (b), tied to the real joins by C29's replay of traced runs; reused read-only):
+   channels of capacity cap, a producer whose source failed sends the error as its last message with a BLOCKING send,
+   the receive loop returns at once on an error message or a failing processing action, and otherwise returns through
+   its final flush after both sides are closed and drained — the only step by which Run can return nil
+   ([nil_return_step]).  For every capacity >= 0, every number of messages, every interleaving (every reachable state): *)
+Section Joins.
+Import JoinDelivery JoinDeliveryProofs ConcurrencyProofs.
+
+(* C06_join_error_delivered: an error sent by a producer is always delivered or Run has already returned an error:
+   Run cannot take its nil-return step in any reachable state when the source of either side failed. *)
+Theorem C06_join_error_delivered : forall p s l s',
+  nreach p s -> nstep p s l = Some s' -> nil_return_step s l = true ->
+  np_errl p = false /\ np_errr p = false.
+Proof. exact join_no_nil_return_when_a_source_failed. Qed.
+
+Theorem C06_join_run_returns_error : forall p tr s l s',
+  nrun p ninit tr = Some s -> nstep p s l = Some s' -> (np_errl p = true \/ np_errr p = true) ->
+  nil_return_step s l = false.
+Proof. exact join_run_returns_error. Qed.
+
+(* the seeded variant: with a non-blocking send of the final error (dropped when the channel is full) there is a run in
+   which the left source fails and Run returns nil: capacity 1, one record, the error dropped, both sides drained *)
+Theorem C06_join_nonblocking_send_refuted :
+  exists p tr s l s', np_errl p = true /\ drun p ninit tr = Some s /\ dstep p s (DStd l) = Some s' /\
+                      nil_return_step s l = true /\ n_m s' = Concurrency.MRet.
+Proof. exact nonblocking_send_loses_the_error. Qed.
+End Joins.
+Print Assumptions C06_join_error_delivered.
+Print Assumptions C06_join_run_returns_error.
+Print Assumptions C06_join_nonblocking_send_refuted.
